@@ -160,7 +160,9 @@ func (n *minNode) Next() (bool, error) {
 						case float64:
 							res = res.SetFloat64(v)
 						default:
-							return nil
+							// a nil (or non-numeric) element does not take part in the
+							// aggregate, the value reached so far is kept
+							return value
 						}
 						if value == nil || res.Cmp(value) < 0 {
 							return res
